@@ -201,3 +201,40 @@ for f_, c_ in (('bernoulli.py', 'Bernoulli'), ('categorical.py', 'Categorical'),
             cx.param(self=cx.obj(c_))
             cx.ensures(lambda st, r: truthy(r) == z3.BoolVal(True))
     mk(f_, c_)
+
+
+# ------------------------------------------------------------------ existence of the moment-generating function (C08, C13)
+def mgf_exists_contract(file, cls, fields, region):
+    """mgf_exists_at(t) answers True ONLY inside the convergence region of the moment-generating function and only when the comparison with the
+    parameters is decided (numeric); everything else (symbolic t or parameters, boundary, outside) is answered False -- the analysis then
+    refuses the exponential moment instead of inventing one.  region(self fields, t) is the region written from the defining integral."""
+    @contract(D + file, f'{cls}.mgf_exists_at', ['C08', 'C13'], name=f'{D}{file}::{cls}.mgf_exists_at')
+    def c(cx):
+        vals = {f: cx.num(f) for f in fields}
+        t = cx.num('t')
+        cx.param(self=cx.obj(cls, **vals), t=t)
+        DECIDED = cx.bool('relation_is_decided')
+        cx.call('sympify', lambda ex, st, r, a, kw: a[0]); cx.call('Abs', lambda ex, st, r, a, kw: VN(z3.If(toreal(a[0]) >= 0, toreal(a[0]), -toreal(a[0]))))
+        cx.attr('is_Boolean', lambda ex, st, o: DECIDED)
+        cx.requires(*[v.t > 0 for v in vals.values()])          # rate / scale parameters are positive (set_parameters contracts)
+        cx.ensures(lambda st, r: r.t == z3.And(DECIDED.t, region({f: v.t for f, v in vals.items()}, t.t)) if r.kind == 'bool' else z3.BoolVal(False))
+    return c
+
+
+mgf_exists_contract('exponential.py', 'Exponential', ['lamb'], lambda p, t: t < p['lamb'])               # E e^{tX} = lamb/(lamb - t) for t < lamb
+mgf_exists_contract('gamma.py', 'Gamma', ['theta'], lambda p, t: t < 1 / p['theta'])                      # (1 - theta t)^(-k) for t < 1/theta
+mgf_exists_contract('laplace.py', 'Laplace', ['b'], lambda p, t: z3.And(t < 1 / p['b'], -t < 1 / p['b']))   # e^{mu t}/(1 - b^2 t^2) for |t| < 1/b
+
+
+def mgf_everywhere(file, cls):
+    @contract(D + file, f'{cls}.mgf_exists_at', ['C08', 'C13'], name=f'{D}{file}::{cls}.mgf_exists_at')
+    def c(cx):
+        """bounded or Gaussian-tailed law: the moment-generating function exists for every t"""
+        cx.param(self=cx.ref('self'), t=cx.real('t'))
+        cx.ensures(lambda st, r: r.t if r.kind == 'bool' else z3.BoolVal(False))
+    return c
+
+
+for _f, _c in (('bernoulli.py', 'Bernoulli'), ('beta.py', 'Beta'), ('discrete_uniform.py', 'DiscreteUniform'), ('normal.py', 'Normal'),
+               ('truncated_normal.py', 'TruncNormal'), ('uniform.py', 'Uniform')):
+    mgf_everywhere(_f, _c)
